@@ -5467,14 +5467,14 @@ GRwritechunk(int32       riid,   /* IN: access aid to GR */
     if (NULL == (ri_ptr = (ri_info_t *)HAatom_object(riid)))
         HGOTO_ERROR(DFE_RINOTFOUND, FAIL);
 
-    /* check if access id exists already */
-    if (ri_ptr->img_aid == 0) {
-        /* now get access id, use write access */
+    /* get an access id with write access (an id opened by an earlier read has read access
+       only: GRIgetaid replaces it) */
+    if (ri_ptr->img_aid == FAIL)
+        HGOTO_ERROR(DFE_INTERNAL, FAIL);
+    if (ri_ptr->img_aid == 0 || (ri_ptr->acc_perm & DFACC_WRITE) == 0) {
         if (GRIgetaid(ri_ptr, DFACC_WRITE) == FAIL)
             HGOTO_ERROR(DFE_INTERNAL, FAIL);
     }
-    else if (ri_ptr->img_aid == FAIL)
-        HGOTO_ERROR(DFE_INTERNAL, FAIL);
 
     comp_type = COMP_CODE_NONE;
     scheme    = ri_ptr->img_dim.comp_tag;
@@ -5674,8 +5674,9 @@ GRreadchunk(int32  riid,   /* IN: access aid to GR */
 
     /* check if access id exists already */
     if (ri_ptr->img_aid == 0) {
-        /* now get access id, use write access */
-        if (GRIgetaid(ri_ptr, DFACC_WRITE) == FAIL)
+        /* now get access id: reading a chunk needs read access only (write access cannot
+           be had on a file opened for reading) */
+        if (GRIgetaid(ri_ptr, DFACC_READ) == FAIL)
             HGOTO_ERROR(DFE_INTERNAL, FAIL);
     }
     else if (ri_ptr->img_aid == FAIL)
